@@ -370,24 +370,13 @@ static void sx_integer_value(int hex)
 void h_integer_value_dec(void) { sx_integer_value(0); VERIF_CANARY(); }
 void h_integer_value_hex(void) { sx_integer_value(1); VERIF_CANARY(); }
 
-/* ==== bounded whole-stack targets (tier B) =================================
- * The real reader, end to end (real leaves, real static tables, real
- * allocator behind the ledger; no contracts), on EVERY string of up to SX_BN
- * octets over a 10-character alphabet that has one member of every class the
- * reader distinguishes, compared with a reference reader written from the
- * grammar in spec/sx.h:
- *   - the input begins (after whitespace) with a complete expression
- *       <=> status is SXS_SUCCESS; then the node is non-NULL, position is
- *       just past the expression, and the tree IS the expression: same
- *       nesting (also of empty lists), same symbol texts, same integer values
- *       (hex digits in either case)  -- "parse inverts print", since every
- *       rendering of a tree with whatever whitespace is one of these strings;
- *   - otherwise an error status, no node, and the ledger is back where it
- *     was (nothing leaked);
- *   - sx_destroy of a returned tree gives every block back exactly once;
- *   - the input block has exactly in_n octets (or in_n + 1 with the NUL for
- *     the NUL-terminated entry point), so any read outside fails.
- */
+/* ==== the reference reader =================================================
+ * A recursive-descent reader written from the grammar in spec/sx.h, used by
+ * target tables_vs_reference to tie the table equations of the contracts to
+ * the grammar, on every string of up to SX_BN octets over a 10-character
+ * alphabet that has a member of every class the reader distinguishes.  (A
+ * whole-stack run of the real reader against it was measured: more than
+ * 40 GB of solver memory at 2 octets; dropped, see targets/C20.json.) */
 #ifndef SX_BN
 #define SX_BN 5
 #endif
@@ -465,39 +454,6 @@ static int ref_list_tail(const char *s, size_t n, size_t i, size_t *end, const s
   return (bad || r1 == 2 || r2 == 2) ? 2 : 1;
 }
 
-static void sx_whole(int nul_terminated)
-{
-  IN(size_t, in_n)
-  ASSUME(in_n <= SX_BN);
-  IN_MEM(in_s, in_n + (nul_terminated ? 1u : 0u))
-  const char *s = (const char *)in_s;
-  for (size_t k = 0; k < SX_BN; k++)
-    if (k < in_n) ASSUME(SX_ALPHABET_OK(s[k]));
-  if (nul_terminated) in_s[in_n] = '\0';
-  SX_COPY_INPUT(cp, s, in_n, SX_BN)
-  const size_t base = g_sx_live;
-
-  struct sx_parse_result r = nul_terminated ? sx_parse_string(s) : sx_parse_stringn(s, in_n);
-
-  size_t end = 0;
-  const int cmp = (r.status == SXS_SUCCESS && r.node != NULL);
-  const int ref = ref_expr(cp, in_n, 0, &end, r.node, cmp);
-  if (ref == 0) {
-    CHECK(r.status != SXS_SUCCESS && r.status != SXS_FOUND_LIST, "no complete expression => error status");
-    CHECK(r.node == NULL, "error => no tree returned");
-    CHECK(g_sx_live == base, "error => nothing leaked (ledger back at its start value)");
-  } else {
-    CHECK(r.status == SXS_SUCCESS, "complete expression => SXS_SUCCESS");
-    CHECK(r.node != NULL, "success => a tree is returned");
-    CHECK(r.position == end, "success => position is just past the expression");
-    CHECK(ref == 1, "success => the tree is the expression (nesting, symbol texts, integer values)");
-    sx_destroy(&r.node);
-    CHECK(r.node == NULL, "sx_destroy clears the caller's pointer");
-    CHECK(g_sx_live == base, "sx_destroy gives back every block of the tree exactly once");
-  }
-}
-void h_whole_stringn(void) { sx_whole(0); VERIF_CANARY(); }
-void h_whole_string(void) { sx_whole(1); VERIF_CANARY(); }
 
 /* the table E of spec/sx.h is the reference reader: for every short string,
  * E[0] is where ref_expr() says the first expression ends (or both say there
